@@ -5,7 +5,8 @@ import J5V.Go.Outcome
 
 * producer, `internal/j5s/j5convert/service.go` `visitServiceMethodNode`: the resolved j5s path is
   split on `/`; a part starting with `:` must name a request property (else a compile error is
-  recorded) and becomes `{` ++ `strcase.ToSnake(name)` ++ `}`; other parts are copied.
+  recorded) and becomes `{` ++ `strcase.ToSnake(name)` ++ `}`; other parts are copied, and (since
+  `fix:` 5ac34d8) a compile error is recorded when one contains any of `{ } * :`.
 * consumer, `internal/structure/build_package.go` `buildMethod`: the pattern is split on `/`;
   empty parts are copied; a part with first byte `{` and last byte `}` is looked up by *proto
   field name* in the request message and becomes `:` ++ JSON name; any other part containing one
@@ -22,16 +23,22 @@ def paramName? : Str → Option Str
   | 58 :: name => some name
   | _ => none
 
-/-- one part on the producer side: the new part, and whether a property of that name exists -/
+/-- `strings.ContainsAny(part, "{}*:")` -/
+def containsSpecial (part : Str) : Bool :=
+  part.any (fun c => c == 123 || c == 125 || c == 42 || c == 58)
+
+/-- one part on the producer side: the new part, and whether it is accepted (a parameter must
+name a property; a literal part must be free of the bytes special in an http pattern) -/
 def rewritePart (props : List Str) (part : Str) : Str × Bool :=
   match paramName? part with
   | some name => (b!"{" ++ toSnake name ++ b!"}", props.contains name)
-  | none => (part, true)
+  | none => (part, !containsSpecial part)
 
-/-- producer: `:name` → `{snake}`. `err` = the compiler's "missing field … in request". -/
+/-- producer: `:name` → `{snake}`. `err` = the compiler's "missing field … in request" or
+"invalid path part". -/
 def rewrite (props : List Str) (path : Str) : Outcome Str :=
   let rs := (splitOnByte 47 path).map (rewritePart props)
-  if rs.all (·.2) then .ok (joinWith b!"/" (rs.map (·.1))) else .err "missing-field"
+  if rs.all (·.2) then .ok (joinWith b!"/" (rs.map (·.1))) else .err "invalid-path"
 
 /-- a field of the request message as the consumer sees it -/
 structure PField where
@@ -42,10 +49,6 @@ structure PField where
 /-- `Fields().ByName(n)` -/
 def fieldByName (fields : List PField) (n : Str) : Option PField :=
   fields.find? (fun f => f.name == n)
-
-/-- `strings.ContainsAny(part, "{}*:")` -/
-def containsSpecial (part : Str) : Bool :=
-  part.any (fun c => c == 123 || c == 125 || c == 42 || c == 58)
 
 def isBraced (part : Str) : Bool :=
   part.head? == some 123 && part.getLast? == some 125
@@ -88,7 +91,8 @@ def fieldsOf (props : List Str) : List PField :=
 /-! ## the side conditions of the round trip, as decidable predicates -/
 
 /-- every literal (non-parameter) part of the path is free of the four bytes the consumer gives a
-meaning to. The compiler does **not** check this (open finding `path:literal-rejected-downstream`). -/
+meaning to. The compiler checks this since `fix:` 5ac34d8 (it did not at the pinned commit:
+finding `path:literal-rejected-downstream`). -/
 def LiteralsClean (path : Str) : Prop :=
   ∀ part ∈ splitOnByte 47 path, paramName? part = none → containsSpecial part = false
 
